@@ -128,7 +128,11 @@ def list_props(item_class: type, prop_name="_props"):
         # noinspection PyDecorator, PyShadowingNames
         @staticmethod
         def _default(props: dict = props) -> dict:
-            return {k: pd.Series(v[1], dtype=v[0]) for k, v in props.items()}
+            # A list-valued default is one cell, not a column of values.
+            return {
+                k: pd.Series([list(v[1])] if isinstance(v[1], list) else v[1], dtype=v[0])
+                for k, v in props.items()
+            }
 
         cl._default = _default
 
